@@ -73,6 +73,8 @@ def run_case(case, props=None):
         res = {}
         hits = []
         for p in (props or case["props"]):
+            if not os.path.exists(os.path.join(VERIF, "sa", "rules", p.lower() + ".py")):
+                continue
             old = sys.stdout
             sys.stdout = open(os.devnull, "w")
             try:
